@@ -134,4 +134,18 @@ PROPS = {
                         "an additional-section record starting 00 00 29 is the new parser's EDNS item and the established parser's OPT record",
                         "names are compared case-insensitively after building (compression may change spelling), exactly after parsing"],
     },
+    "C06": {
+        "level": "exploration",
+        "features": ["crypto", "hooks"],
+        "stages": [
+            {"mode": "native"},
+            {"mode": "asan", "scale": 0.1},
+        ],
+        "rule": "an evaluation is one zone record (every ZoneRecordData type cycled, plus unknown types in RFC 3597 form; owners from plain to arbitrary octets; "
+                "classes IN/CH/HS/other; TTL 0..2^32-1; field values from the RFC-derived generator) written with display_zonefile in one of the three kinds "
+                "(Simple, Tabbed, Multiline) and read back by zonefile::inplace::Zonefile with or without an origin; owner, class, TTL, type and the "
+                "re-composed RDATA octets must be identical; distinct = (type, kind, owner class, rdata size class, class)",
+        "assumptions": ["the reader is run with allow_invalid() because each text holds a single record of an arbitrary class",
+                        "equality is octet equality of owner and of re-composed RDATA (stricter than the library's case-insensitive ==)"],
+    },
 }
